@@ -61,17 +61,17 @@ func wildcardChars(c *Ctx, rule, fnName string) {
 	// (strings.ContainsAny with a constant set is the other spelling)
 	if missing != "" {
 		for _, call := range c.P.CallsTo(fn, "strings.ContainsAny", "strings.IndexAny", "strings.ContainsRune", "strings.IndexByte") {
-			c.DerivesFrom(call.Common().Args[1], func(v ssa.Value) bool {
-				if s, ok := eng.ConstString(v); ok {
-					for _, ch := range s {
-						seen[int64(ch)] = true
+			for _, a := range call.Common().Args {
+				// (the set is the second argument of ContainsAny/IndexAny, the first of IndexByte/ContainsRune)
+				c.DerivesFrom(a, func(v ssa.Value) bool {
+					if s, ok := eng.ConstString(v); ok {
+						for _, ch := range s {
+							seen[int64(ch)] = true
+						}
 					}
-				}
-				if k, ok := eng.ConstInt(v); ok {
-					seen[k] = true
-				}
-				return false
-			}, 3)
+					return false
+				}, 3)
+			}
 		}
 		missing = ""
 		for _, ch := range "*?[" {
@@ -136,7 +136,25 @@ func r18_6(c *Ctx, rule string) {
 		}
 	}
 	if flag == nil {
-		c.R.Fail(rule, c.name(fn)+"/flag", c.P.Pos(fn.Pos()), "readSymlink has no flag that switches wildcard expansion off for matched names")
+		// no flag: the expanding function and the literal one are two functions.
+		// Then the one that lists the directory must not be reachable from itself.
+		var lister *ssa.Function
+		eng.Instrs(fn, func(in ssa.Instruction) {
+			if c.P.IsCallTo(in, "fsutil.readDir", "os.ReadDir", "path/filepath.Match") {
+				lister = in.Parent()
+			}
+		})
+		if lister == nil {
+			c.R.OK(rule, c.name(fn)+"/flag", c.P.Pos(fn.Pos()), "readSymlink expands nothing")
+			return
+		}
+		selfCall := false
+		eng.InstrsShallow(lister, func(in ssa.Instruction) {
+			if call, ok := in.(ssa.CallInstruction); ok && eng.EffCallee2(call) == lister {
+				selfCall = true
+			}
+		})
+		c.R.Check(!selfCall, rule, c.name(fn)+"/flag", c.P.Pos(fn.Pos()), "the expanding function reads matched names through a function that expands nothing", "the function that expands a wildcard hands matched names back to itself, with nothing that switches expansion off: a matched name is treated as a pattern again")
 		return
 	}
 	isList := c.callPred("fsutil.readDir", "os.ReadDir", "path/filepath.Match")
@@ -184,11 +202,7 @@ func r18_1(c *Ctx, rule string) {
 		return false
 	}
 	var looks []*ssa.Lookup
-	eng.Instrs(fn, func(in ssa.Instruction) {
-		if l, ok := in.(*ssa.Lookup); ok && l.CommaOk && isFieldLoad(l.X, "fsutil.symlinkResolver.resolved") {
-			looks = append(looks, l)
-		}
-	})
+	looks = c.lookupsOfField(fn, "fsutil.symlinkResolver.resolved")
 	if len(looks) == 0 {
 		c.R.Fail(rule, base+"/cycle-guard", c.P.Pos(fn.Pos()), "append never asks whether the current path was resolved before: a symlink cycle recurses forever")
 		return
